@@ -24,7 +24,7 @@ Open Scope Z_scope.
 Record quirks : Type := mkQuirks {
   qk_seg_abs_default : bool; qk_no_mid_clamp : bool; qk_inner_by_flag : bool }.
 Definition rfc_quirks : quirks := mkQuirks false false false.
-Definition go_quirks : quirks := mkQuirks true true true.
+Definition go_quirks : quirks := mkQuirks true true false. (* inner-edge rule repaired in /repo a31fb50 *)
 
 Record colctx : Type := mkCol { cc_b : list Z; cc_nz : nzctx; cc_pix : option mbpix }.
 Record leftctx : Type := mkLeft { lc_b : list Z; lc_nz : nzctx; lc_pix : option mbpix }.
